@@ -174,6 +174,12 @@ class MediaQuery(cssutils.util._NewBase):  # cssutils.util.Base):
             # stand-alone query: a handed back token is not part of a list
             ok = False
             self._log.error('MediaQuery: Unexpected token.', savedTokens.pop())
+        if ok and not all(
+            getattr(item.value, 'wellformed', True) for item in seq
+        ):
+            # e.g. "(color: rgb(1,2))": a value which is not accepted
+            ok = False
+            self._log.error('MediaQuery: Invalid value in: %s' % self._valuestr(mediaText))
         self._wellformed = ok
         if ok:
             # nothing is left of a text set before
